@@ -144,3 +144,40 @@ func VfH_C13_shaper() {
 	vfAssert(got.Advance == want.Advance && got.LineBounds == want.LineBounds, "reused shaper returns different run metrics than a fresh shaper")
 	vfReach("end")
 }
+
+// H-C13-fontlru: the shaper's font cache used the way Shape uses it (Get; on a miss build a font and Put it)
+// over histories of accesses to three faces with every cache size 0..3: a cache may forget, but a hit must
+// return the font that was built for THAT face, and the cache never holds more than maxSize entries.
+func VfH_C13_fontlru() {
+	faces := [3]*font.Face{{}, {}, {}}
+	var lru fontLRU
+	lru.maxSize = vfChoice("maxSize", 4)
+	var built [3]*harfbuzz.Font
+	steps := 4
+	if vfThorough() {
+		steps = 6
+	}
+	n := 1 + vfChoice("accesses", steps)
+	for i := 0; i < n; i++ {
+		k := vfChoice("face", 3)
+		f, ok := lru.Get(faces[k])
+		if ok {
+			vfAssert(f != nil && f == built[k], "font cache hit returns a font that was not built for this face")
+		} else {
+			built[k] = &harfbuzz.Font{}
+			lru.Put(faces[k], built[k])
+		}
+		vfAssert(len(lru.m) <= lru.maxSize, "font cache holds more entries than its maximum size")
+		// the list and the map describe the same set
+		cnt := 0
+		if lru.head != nil {
+			for e := lru.tail.next; e != lru.head; e = e.next {
+				cnt++
+				vfAssert(lru.m[e.key] == e, "font cache: list entry not indexed by its key")
+				vfAssert(cnt <= 8, "font cache: list does not terminate")
+			}
+		}
+		vfAssert(cnt == len(lru.m), "font cache: list and map sizes differ")
+	}
+	vfReach("end")
+}
